@@ -447,3 +447,25 @@ Theorem C02_reentrant_request_history_free : forall inner C root q,
   caches_ok C2 /\ forall later, run_ops_st C2 later = map pure_op later.
 Proof. exact reentrant_request_history_free. Qed.
 Print Assumptions C02_reentrant_request_history_free.
+
+(* the `traverse` entry a route puts into the match dictionary: a value captured by the pattern wins over the traverse=
+   option however empty it is; the option fills only an absent entry, with normalised segments (exactly the named
+   pieces when those are ordinary names) *)
+Theorem C02_traverse_entry_spec : forall captured parts,
+  (forall v, captured = Some v -> traverse_entry captured parts = Some v) /\
+  (captured = None -> forall ps, parts = Some ps ->
+     exists l, traverse_entry captured parts = Some (MTuple l) /\ Forall normal_seg l /\
+               (Forall normal_seg ps -> l = ps)) /\
+  (captured = None -> parts = None -> traverse_entry captured parts = None).
+Proof. exact traverse_entry_spec. Qed.
+Print Assumptions C02_traverse_entry_spec.
+
+Theorem C02_gen_join_path_tuple_is_model : forall l, gen_join_path_tuple_c02 l = join_path_tuple l.
+Proof. exact gen_join_path_tuple_c02_is_model. Qed.
+Print Assumptions C02_gen_join_path_tuple_is_model.
+
+(* a tuple path whose first element is '' is an absolute path text *)
+Theorem C02_gen_join_path_tuple_absolute : forall segs p,
+  gen_join_path_tuple_c02 ([] :: segs) = Ok p -> hd_error p = Some slash.
+Proof. exact gen_join_path_tuple_c02_absolute. Qed.
+Print Assumptions C02_gen_join_path_tuple_absolute.
